@@ -4,7 +4,10 @@ Three layers, all driving the real armi.nuclearDataIO.cccc code:
 
 1. record level   random rw* call sequences through Binary/AsciiRecordWriter, judged by an independent
                   `struct` byte scanner (framing = payload length computed from the call sequence by this
-                  module, never by armi) and by a mirrored read-back.
+                  module, never by armi), by the byte image of the record built here with numpy conversions,
+                  and by a mirrored read-back that also judges the numeric kind (rwInt gives integers,
+                  rwFloat/rwDouble reals).  A separate shard writes records with more fields than
+                  io.DEFAULT_BUFFER_SIZE (the writer flushes its field list in chunks of that size).
 2. fixtures       every CCCC file shipped in the repo: read -> write -> same bytes -> read equal, binary and
                   ASCII, cross-encoding.
 3. generated      a *generative reader* (IORecord subclass that invents seeded values, header integers from
@@ -12,7 +15,11 @@ Three layers, all driving the real armi.nuclearDataIO.cccc code:
                   format's own readWrite(); while doing so it also emits the byte image of the file it
                   "read".  Oracles: the real reader on that image returns the same container; the writer
                   reproduces the image byte for byte; framing scan; record census from the format
-                  specification; binary/ASCII round trips and cross-encoding equality.
+                  specification; binary/ASCII round trips and cross-encoding equality.  The reference
+                  for every round trip is taken before the writer is called.  If armi raises while walking
+                  the synthetic file, that is a violation (read/<fmt>/regular-header-refused/<Exc>@<function>)
+                  unless the format module refuses that header on purpose or the header is ill-formed
+                  (Fmt.refusal names the reason).  Every format has its own floors.
 """
 import io
 import math
@@ -26,10 +33,12 @@ RULE = (
     "record level: random sequences (1-4 records x 1-8 fields) of rwInt/rwLong/rwFloat/rwDouble/rwString/rwList/rwMatrix/"
     "rwDoubleMatrix/rwIntMatrix/rwImplicitlyTypedMap with values drawn from type extremes (INT_MIN/MAX, 10-digit ints, "
     "LONG_MIN/MAX, FLT_MAX/denormals, DBL_MAX/denormals, 3-digit exponents), strings 0..width, empty lists, 0-size matrices; "
-    "a case = one such file in one encoding; distinct = distinct (field type, value class) sequences. "
+    "a case = one such file in one encoding; distinct = distinct (field type, value class) sequences; plus records of "
+    "DEFAULT_BUFFER_SIZE-1 .. 4*DEFAULT_BUFFER_SIZE primitive fields (scalars, mixed types, one long list, one large matrix) between two small records. "
     "format level: every shipped fixture file, plus generated containers per stream class obtained by running a generative "
     "reader through the format's own readWrite() with header integers drawn from per-format tables (dimensions 1-6, flags, "
-    "geometry types, block counts, optional-record switches); a case = one container; distinct = distinct header tuples; "
+    "geometry types, block counts, optional-record switches; about 15% of the cases also draw values the format modules refuse on purpose); "
+    "a case = one container; distinct = distinct header tuples; "
     "non-trivial = at least one data record beyond the header records. Format-level reals/ints are kept inside the range "
     "the ASCII field widths can hold (|int| < 1e9, |exponent| < 100); the field-width limits themselves are judged at record level."
 )
@@ -39,14 +48,36 @@ TOLERANCES = {
     "binary_float": "exact after rounding the written value to IEEE float32 (independent np.float32 rounding)",
     "binary_double_int_string": "exact",
     "ascii_real": "exact (the ASCII format writes 17 significant digits); a float may also come back as its float32 rounding",
+    "numeric_kind": "integers and reals are different values (1 != 1.0): an integer field must come back as an integer, a real as a real; widths "
+                    "(int16/int64, float32/float64 of the same value) are not compared; a list and an array holding the same values are the same data",
     "strings": "compared in normal form: no trailing blanks (fields are blank padded to the field width by design)",
     "ascii_fixture_newlines": "CRLF in a shipped ASCII fixture is compared as LF (text-mode newline translation)",
 }
+GEN_FORMATS = ["rtflux", "atflux", "pwdint", "rzflux", "nhflux", "naflux", "nhflux-variant", "naflux-variant", "geodst", "dif3d", "labels",
+               "isotxs", "gamiso", "pmatrx", "compxs", "dlayxs", "fixsrc"]
+# per-format floors (a format that loses its generated coverage must not hide behind the other sixteen); smallest counts observed over
+# seeds 0-5 (quick) / 0-1 (thorough) are at least twice these.  'complete' = the container went through every round-trip oracle.
+_FOUR = ("nhflux", "naflux", "nhflux-variant", "naflux-variant")  # share one thorough shard: half as many cases each
+_PER_FORMAT = {"quick": {"image": {"*": 14}, "complete": {"*": 14}},
+               "thorough": {"image": dict({"*": 500}, **{f: 250 for f in _FOUR}), "complete": dict({"*": 500}, **{f: 250 for f in _FOUR})}}
+
+
+def _floors(tier, base):
+    out = dict(base)
+    for f in GEN_FORMATS:
+        if f != "fixsrc":  # FIXSRC containers are generated directly (no synthetic file image)
+            out["gen.image-reproduced/" + f] = _PER_FORMAT[tier]["image"].get(f, _PER_FORMAT[tier]["image"]["*"])
+        out["gen.roundtrips-complete/" + f] = _PER_FORMAT[tier]["complete"].get(f, _PER_FORMAT[tier]["complete"]["*"])
+    return out
+
+
 FLOORS = {
-    "quick": {"record.bin.framing": 1800, "record.bin.readback": 1800, "record.ascii.readback": 1200, "fixture.rewrite": 28, "fixture.bin.roundtrip": 28,
-              "fixture.ascii.roundtrip": 28, "gen.container": 400, "gen.image-reproduced": 380, "gen.bin.roundtrip": 400, "gen.ascii.roundtrip": 400, "census": 350},
-    "thorough": {"record.bin.framing": 45000, "record.bin.readback": 45000, "record.ascii.readback": 35000, "fixture.rewrite": 28, "fixture.bin.roundtrip": 28,
-                 "fixture.ascii.roundtrip": 28, "gen.container": 16000, "gen.image-reproduced": 15000, "gen.bin.roundtrip": 16000, "gen.ascii.roundtrip": 16000, "census": 13000},
+    "quick": _floors("quick", {"record.bin.framing": 1000, "record.bin.readback": 1800, "record.bin.image": 1000, "record.ascii.readback": 1200, "record.big.bin": 6,
+                                "record.big.ascii": 2, "fixture.rewrite": 20, "fixture.bin.roundtrip": 20,
+                                "fixture.ascii.roundtrip": 20, "gen.container": 400, "gen.image-reproduced": 380, "gen.bin.roundtrip": 400, "gen.ascii.roundtrip": 400, "census": 350}),
+    "thorough": _floors("thorough", {"record.bin.framing": 45000, "record.bin.readback": 45000, "record.bin.image": 25000, "record.ascii.readback": 35000, "record.big.bin": 27,
+                                      "record.big.ascii": 9, "fixture.rewrite": 20, "fixture.bin.roundtrip": 20,
+                                      "fixture.ascii.roundtrip": 20, "gen.container": 16000, "gen.image-reproduced": 15000, "gen.bin.roundtrip": 16000, "gen.ascii.roundtrip": 16000, "census": 13000}),
 }
 TIMEOUT = {"quick": 600, "thorough": 3600}
 ASSUMPTIONS = [
@@ -55,8 +86,12 @@ ASSUMPTIONS = [
     "record census (count and payload length of every record) written here from the CCCC-IV / DIF3D record descriptions for "
     "RTFLUX/ATFLUX, PWDINT, RZFLUX, GEODST, DIF3D, LABELS, NHFLUX/NAFLUX (nodal and VARIANT), FIXSRC, ISOTXS/GAMISO; PMATRX, DLAYXS, "
     "COMPXS have no census",
-    "generated containers are those armi's own reader builds from a synthetic file; header values the reader refuses are counted "
-    "as rejected, not judged (over-rejection is allowed)",
+    "generated containers are those armi's own reader builds from a synthetic file. A refusal is accepted (counted as rejected, not judged) only for "
+    "headers the format modules refuse on purpose or that are ill-formed: RTFLUX/ATFLUX NDIM<2, NBLOK/NZONE giving a negative block length, VARIANT iwnhfl=2, "
+    "LABELS control-rod and burnup-dependent records, ISOTXS/GAMISO fission-spectrum matrices (ICHIST/ICHI>1), ISOTXS/GAMISO NSBLOK>1 or LORD>1 (recorded finding); "
+    "any other exception on a generated header is a violation",
+    "ISOTXS/GAMISO cases with NSBLOK>1 or LORD>1 that the reader accepts: differences confined to the scatter (7D) records / scatter matrices are filed under the "
+    "recorded finding isotxs/scatter-subblocks-or-orders-accepted-but-garbled; the census and everything outside those records keep their own keys",
     "strings are printable ASCII without trailing blanks or newlines; reals are finite; negative zero is not generated at format level "
     "(sparse scatter blocks drop stored zeros by design)",
     "native little-endian 4-byte record markers (struct 'i'), as armi assumes",
@@ -203,13 +238,22 @@ def norm(o, seen=None, depth=0):
     return repr(o)
 
 
+def _kind(x):
+    """Numeric kind of a leaf of a normal form: integer (bool included), real, string, other.  Widths are not part of it: norm() turns
+    every numpy scalar/array element into a python int or float, so int16 -> int64 or float32 -> float64 on read-back stay equal."""
+    return "real" if isinstance(x, float) else "integer" if isinstance(x, int) else "string" if isinstance(x, str) else "other"
+
+
 def _num_eq(a, b):
-    if isinstance(a, float) or isinstance(b, float):
+    """Equal values of the same kind: an integer field that comes back as a real (or the reverse) is a difference, 1 != 1.0 here."""
+    if _kind(a) != _kind(b):
+        return False
+    if isinstance(a, float):
         try:
             return a == b or (a != a and b != b)
         except Exception:
             return False
-    return a == b and (isinstance(a, str) == isinstance(b, str))
+    return a == b
 
 
 def diff(a, b, path="", out=None, limit=4):
@@ -440,6 +484,29 @@ def ascii_len(fields):
     return 22 + sum(ASC_SIZE[t] if t != "string" else 1 + w for f in fields for t, _v, w in field_leaves(f))
 
 
+def pack_leaf(t, v, w):
+    """Bytes of one primitive field by the CCCC binary convention (native 4-byte integer / IEEE single, 8-byte long / IEEE double,
+    blank-padded characters) - numpy conversions, no armi code."""
+    import numpy as np
+
+    if t == "string":
+        return v.encode("ascii") + b" " * (w - len(v))
+    with np.errstate(over="ignore"):
+        return {"int": np.int32, "long": np.int64, "float": np.float32, "double": np.float64}[t](v).tobytes()
+
+
+def record_image(fields):
+    p = b"".join(pack_leaf(t, v, w) for f in fields for t, v, w in field_leaves(f))
+    n = np_int32_bytes(len(p))
+    return n + p + n
+
+
+def np_int32_bytes(n):
+    import numpy as np
+
+    return np.int32(n).tobytes()
+
+
 def apply_field(r, f, reading):
     """Issue the armi call for one field on record r; returns what armi returned."""
     import numpy as np
@@ -467,6 +534,9 @@ def apply_field(r, f, reading):
 
             for index in itertools.product(*[range(s) for s in shape]):  # stream order: first shape argument outermost
                 arr[tuple(reversed(index))] = next(it)
+        if reading and kind == "i" and all(shape):
+            # the format modules hand rwIntMatrix a pre-allocated integer array (geodst, nhflux); with None armi allocates a float64 one
+            arr = np.zeros(tuple(reversed(shape)), dtype=np.int64)
         fn = {"f": r.rwMatrix, "d": r.rwDoubleMatrix, "i": r.rwIntMatrix}[kind]
         return fn(arr, *shape)
     return r.rwImplicitlyTypedMap(f[1], {k: None for k in f[1]} if reading else dict(f[2]))
@@ -490,10 +560,17 @@ def got_leaves(f, got):
 
 
 def value_ok(t, want, got, ascii_mode):
+    import numpy as np
+
     if isinstance(got, str) and t != "string":
         return False
+    # the numeric kind is part of the field type: rwInt/rwLong give integers, rwFloat/rwDouble give reals
     if t in ("int", "long"):
-        return int(got) == want and float(got) == float(want)
+        if isinstance(got, (bool, np.bool_)) or not isinstance(got, (int, np.integer)):
+            return False
+        return int(got) == want
+    if t in ("float", "double") and not isinstance(got, (float, np.floating)):
+        return False
     if t == "double":
         return got == want
     if t == "float":
@@ -528,6 +605,42 @@ def do_records(spec, rec, rng):
         record_ascii(cccc, records, rec, w, crng)
 
 
+def do_big_records(spec, rec, rng):
+    """Records with more fields than io.DEFAULT_BUFFER_SIZE: BinaryRecordWriter.close flushes its field list in chunks of that many
+    entries, so chunk boundaries (1, 2, 3+ chunks, exact multiples) are part of 'whatever mix of fields a record holds'."""
+    from armi.nuclearDataIO.cccc import cccc
+
+    D = io.DEFAULT_BUFFER_SIZE
+    sizes = [D - 1, D, D + 1, 2 * D - 1, 2 * D, 2 * D + 1, 3 * D + 7, 4 * D]
+    cases = [(n, mix) for n in sizes for mix in ("scalars", "mixed")] + [(2 * D + 5, "list"), (3 * D + 1, "matrix")]
+    for ci, (n, mix) in enumerate(cases * spec.get("repeat", 1)):
+        crng = random.Random("%s:%d" % (spec["rng"], ci))
+        if mix == "scalars":
+            big = [("int", gen_int(crng, False)) if i % 2 else ("double", gen_f64val(crng, False)) for i in range(n)]
+        elif mix == "mixed":
+            big = []
+            for i in range(n):
+                t = crng.choice(["int", "float", "double", "string"])
+                big.append(("string", nice_str(crng, 6), 6) if t == "string" else (t, {"int": lambda: gen_int(crng, False), "float": lambda: gen_f32val(crng),
+                                                                                       "double": lambda: gen_f64val(crng, False)}[t]()))
+        elif mix == "list":
+            big = [("int", 7), ("list", "double", [gen_f64val(crng, False) for _ in range(n)], 0), ("string", "END", 4)]
+        else:
+            a, b = 3, (n + 2) // 3
+            big = [("matrix", "f", (a, b), [gen_f32val(crng) for _ in range(a * b)]), ("int", -1)]
+        small = [("int", 1), ("string", "ab", 4)]
+        records = [small, big, small]
+        nleaves = sum(len(field_leaves(f)) for f in big)
+        w = {"records": "3 records: 2 fields / %d fields (%s) / 2 fields" % (nleaves, mix), "case": "%s:%d" % (spec["rng"], ci), "fields_in_big_record": nleaves,
+             "io.DEFAULT_BUFFER_SIZE": D}
+        rec.case(["bigrec", nleaves, mix, ci], nontrivial=nleaves > D, sample=w if ci < 2 else None)
+        rec.hit("record.big.bin")
+        record_binary(cccc, records, rec, w)
+        if ci % 4 == 1 or mix in ("list", "matrix"):
+            rec.hit("record.big.ascii")
+            record_ascii(cccc, records, rec, w, crng)
+
+
 def record_binary(cccc, records, rec, w):
     s = io.BytesIO()
     try:
@@ -535,10 +648,7 @@ def record_binary(cccc, records, rec, w):
             with cccc.BinaryRecordWriter(s) as r:
                 for f in fields:
                     apply_field(r, f, False)
-    except (struct.error, OverflowError) as e:
-        rec.reject("binary writer refused a value (%s)" % type(e).__name__)
-        return
-    except Exception as e:
+    except Exception as e:  # every generated value is inside the range of its field type: a refusal is a failure
         rec.crash("record-write-binary", e, w)
         return
     b = s.getvalue()
@@ -568,16 +678,36 @@ def record_binary(cccc, records, rec, w):
             scan_records(b)
         except ScanError as e:
             rec.violation("framing/" + e.kind, e.detail, w)
+    # (a') the whole file against the byte image this module builds from the call sequence
+    rec.hit("record.bin.image")
+    if not bad:
+        img = b"".join(record_image(fields) for fields in records)
+        if img != b:
+            fd = _first_diff(img, b)
+            pos, where = 0, None
+            for ri, fields in enumerate(records):
+                off = pos + 4
+                for fi, f in enumerate(fields):
+                    for t, v, wd in field_leaves(f):
+                        n = BIN_SIZE[t] if t != "string" else wd
+                        if where is None and off <= fd["offset"] < off + n:
+                            where = (ri, fi, t)
+                        off += n
+                pos += 8 + payload_len(fields)
+            rec.violation("image/binary/%s" % (where[2] if where else "structure"), "binary record bytes differ from the CCCC encoding of the values written "
+                          "(first at byte %d: record %s field %s type %s)" % ((fd["offset"],) + (where or (None, None, None))), dict(w, first_diff=fd))
     # (b) mirrored read-back
     rec.hit("record.bin.readback")
     s.seek(0)
+    nbad = 0
     try:
         for ri, fields in enumerate(records):
             with cccc.BinaryRecordReader(s) as r:
                 for fi, f in enumerate(fields):
                     got = got_leaves(f, apply_field(r, f, True))
                     for (t, want, _w), g in zip(field_leaves(f), got):
-                        if not value_ok(t, want, g, False):
+                        if not value_ok(t, want, g, False) and nbad < 8:  # a shifted record would otherwise report every later field
+                            nbad += 1
                             rec.violation("readback/binary/%s" % t, "binary %s written %r read %r (record %d field %d %s)" % (t, want, g, ri, fi, f[0]),
                                           dict(w, record=ri, field=fi))
                     if len(got) != len(field_leaves(f)):
@@ -706,7 +836,8 @@ class Gen:
         self.cur = None
         self.keyed = []
         self.state = {}
-        self.header = {}                 # named integers chosen (case signature)
+        self.header = {}                 # named integers chosen (case signature; the last value when a key is filled repeatedly)
+        self.seen = {}                   # key -> every value handed out for it (per-nuclide keys are filled once per nuclide)
         self.label = label
 
     def keyify(self, meta):
@@ -740,6 +871,7 @@ class Gen:
             lo, hi = self.ilist if inlist else self.iscalar
             return self.rng.randint(lo, hi)
         v = spec(self, n) if callable(spec) else (self.rng.choice(spec) if isinstance(spec, list) else self.rng.randint(*spec))
+        self.seen.setdefault(str(key), set()).add(v)
         if n == 0:
             self.header[str(key)] = v
         elif (key, n) in self.table:
@@ -822,6 +954,14 @@ def make_gen_reader(cccc):
                 return cccc.BinaryRecordReader.rwList(self, contents, containedType, length, strLength)
             finally:
                 self._inlist -= 1
+
+        def rwImplicitlyTypedMap(self, keys, contents):
+            # FORTRAN-77 implicit typing written down here, not taken from armi: names starting with I..N are integers, all others reals.
+            # The synthetic file therefore holds the types the CCCC descriptions prescribe, whatever armi's own rule says.
+            for key in keys:
+                Track.key, Track.n = key, 0  # the header tables are keyed by the name being filled
+                contents[key] = self.rwInt(None) if key[:1].upper() in ("I", "J", "K", "L", "M", "N") else self.rwFloat(None)
+            return contents
 
         def rwIntMatrix(self, contents, *shape):
             self._inlist += 1
@@ -947,6 +1087,13 @@ def R(lo, hi):
     return (lo, hi)
 
 
+def _negative_block(g, key_n, key_b="NBLOK"):
+    h = g.header
+    if key_n in h and key_b in h and min(blocks(h[key_n], h[key_b])) < 0:
+        return "%s/%s give a negative block length under the CCCC blocking rule (ill-formed header)" % (key_b, key_n)
+    return None
+
+
 def nblok_for(key_n):
     """NBLOK such that the CCCC blocking rule yields no negative block (empty trailing blocks are legal: 0-size record)."""
     def f(g, n):
@@ -983,12 +1130,20 @@ class Fmt:
     def strings(self):
         return {}
 
+    last_g = None
+
     def new_gen(self, rng, hostile):
         Track.key, Track.n = None, 0
         g = Gen(rng, table=self.table(hostile), strings=self.strings(), **self.irange)
         g.state["hostile"] = hostile
         g.pool = self.env["pool"]
+        self.last_g = g  # stays reachable when armi raises half way through the synthetic file
         return g
+
+    def refusal(self, g):
+        """Why armi may refuse the header drawn so far (a reason taken from the format module: an explicit NotImplementedError/ValueError
+        branch, or a header that is ill-formed by the CCCC rules), or None: the header is regular and must be read."""
+        return None
 
     def generate(self, rng, hostile):
         raise NotImplementedError
@@ -1061,6 +1216,11 @@ class RtfluxFmt(SwdcFmt):
         return {"NDIM": [2, 3] + ([0, 1] if hostile else []), "NGROUP": R(1, 5), "NINTI": R(1, 5), "NINTJ": R(1, 6), "NINTK": R(1, 4),
                 "ITER": R(0, 500), "NBLOK": nblok_for("NINTJ")}
 
+    def refusal(self, g):
+        if g.header.get("NDIM", 2) < 2:
+            return "NDIM<2: RtfluxStream.readWrite raises on purpose (NDIM=1 NotImplementedError '1-D RTFLUX files are not yet implemented', NDIM<1 ValueError)"
+        return _negative_block(g, "NINTJ")
+
     def refill(self, c, rng):
         c.groupFluxes = _arr_refill(c.groupFluxes, rng, "d")
         return True
@@ -1079,6 +1239,9 @@ class PwdintFmt(SwdcFmt):
 
     def table(self, hostile):
         return {"NINTI": R(1, 5), "NINTJ": R(1, 6), "NINTK": R(1, 4), "NCY": R(0, 99), "NBLOK": nblok_for("NINTJ")}
+
+    def refusal(self, g):
+        return _negative_block(g, "NINTJ")
 
     def refill(self, c, rng):
         c.powerDensity = _arr_refill(c.powerDensity, rng, "f")
@@ -1104,6 +1267,9 @@ class RzfluxFmt(SwdcFmt):
             return g.rng.choice(bad) if (hostile and bad and g.rng.random() < 0.5) else g.rng.choice(ok)
         return {"NBLOK": R(1, 4), "ITPS": R(0, 3), "NZONE": nzone, "NGROUP": R(1, 6), "NCY": R(0, 99)}
 
+    def refusal(self, g):
+        return _negative_block(g, "NZONE")
+
     def refill(self, c, rng):
         c.groupFluxes = _arr_refill(c.groupFluxes, rng, "f")
         return True
@@ -1128,6 +1294,11 @@ class NhfluxFmt(SwdcFmt):
         if self.variant:
             t.update({"npcbdy": R(0, 5), "npcsym": R(0, 3), "npcsec": R(0, 3), "iwnhfl": [0, 0, 1] + ([2] if hostile else []), "nMoms": R(0, 4)})
         return t
+
+    def refusal(self, g):
+        if self.variant and g.header.get("iwnhfl") == 2:
+            return "VARIANT iwnhfl=2: NhfluxStreamVariant.readWrite raises ValueError on purpose ('can only read ... iwnhfl=0 or 1')"
+        return None
 
     def refill(self, c, rng):
         for a in ("fluxMomentsAll", "partialCurrentsHexAll", "partialCurrentsHex_extAll", "partialCurrentsZAll"):
@@ -1209,6 +1380,11 @@ class LabelsFmt(SwdcFmt):
                 "numHalfHeightsDirection1": R(0, 3), "numHalfHeightsDirection2": R(0, 3), "numNuclideSets": R(0, 4), "numZoneAliases": R(0, 3),
                 "numControlRodBanks": z, "numBurnupDependentIsotopes": z, "maxBurnupDependentGroups": z, "maxBurnupPolynomialOrder": z}
 
+    def refusal(self, g):
+        if any(g.header.get(k, 0) > 0 for k in ("numControlRodBanks", "numBurnupDependentIsotopes", "maxBurnupDependentGroups", "maxBurnupPolynomialOrder")):
+            return "control-rod / burnup-dependent records: LabelsStream._rw6DRecord.._rw11DRecord raise NotImplementedError on purpose"
+        return None
+
 
 def _pool_label(g, length):
     """Next unused nuclide label (4 chars) + 2-char cross-section id."""
@@ -1277,6 +1453,14 @@ class IsotxsFmt(Fmt):
                 "chiFlag": [0, 1] + ([2] if h else []), "fisFlag": fis, "nalph": f01, "np": f01, "n2n": f01, "nd": f01, "nt": f01,
                 "ltot": R(0, 3), "ltrn": R(0, 3), "strpd": R(0, 2), "scatFlag": scat, "ords": ords, "jband": jband, "jj": jj}
 
+    def refusal(self, g):
+        if any(v > 1 for k in ("fileWideChiFlag", "chiFlag") for v in g.seen.get(k, ())):
+            return "fission-spectrum matrices (ICHIST or ICHI > 1): IsotxsIO._rw3DRecord / _rw6DRecord raise NotImplementedError on purpose"
+        if any(v > 1 for k in ("subblockingControl", "ords") for v in g.seen.get(k, ())):
+            return ("NSBLOK>1 or LORD>1: that most such layouts are refused is part of the recorded finding "
+                    "isotxs/scatter-subblocks-or-orders-accepted-but-garbled")
+        return None
+
     def strings(self):
         rnd = lambda g, L: nice_str(g.rng, L)
         return {"label": lambda g, L: "ISOTXS", "libName": rnd, "isoIdent": rnd,
@@ -1328,8 +1512,9 @@ class PmatrxFmt(Fmt):
     def table(self, hostile):
         f01 = [0, 1]
         return {"numGammaGroups": R(1, 4), "numNeutronGroups": R(1, 5), "hasInPlateData": f01, ("hasInPlateData", 1): R(1, 4), "hasDoseConversionFactor": f01,
-                "maxScatteringOrder": R(0, 2) if not hostile else R(0, 3), "hasNeutronHeatingAndDamage": f01, "hasGammaHeating": f01,
-                "numberNeutronXS": [0] + ([1] if hostile else [])}
+                # order-3 production matrices and activation cross sections are regular PMATRX content (PmatrxIO has code for both)
+                "maxScatteringOrder": [0, 1, 2] * 8 + [3], "hasNeutronHeatingAndDamage": f01, "hasGammaHeating": f01,
+                "numberNeutronXS": [0] * 24 + [1]}
 
     def strings(self):
         return {8: _pool_label}
@@ -1380,8 +1565,8 @@ class CompxsFmt(Fmt):
         @each
         def ndn(g, n):
             return g.rng.randint(0, n)
-        return {"numComps": R(1, 3), "numGroups": R(1, 5), "fileWideChiFlag": [0] + ([1] if hostile else []), "numFissComps": R(0, 3), "maxUpScatterGroups": R(0, 4),
-                "maxDownScatterGroups": R(0, 4), "numDelayedFam": [0] + ([2] if hostile else []), "maxScatteringOrder": R(0, 2),
+        return {"numComps": R(1, 3), "numGroups": R(1, 5), "fileWideChiFlag": [0] * 7 + [1], "numFissComps": R(0, 3), "maxUpScatterGroups": R(0, 4),
+                "maxDownScatterGroups": R(0, 4), "numDelayedFam": [0] * 7 + [2], "maxScatteringOrder": R(0, 2),
                 "compFamiliesWithPrecursors": each(lambda g, n: g.rng.randint(0, 2)), "chiFlag": R(0, 2), "numUpScatterGroups": nup, "numDownScatterGroups": ndn}
 
     def generate(self, rng, hostile):
@@ -1489,6 +1674,22 @@ def _locate(payloads, offset):
     return {"record": None}
 
 
+def records_differing(a, b):
+    """Indices of the records whose payload differs between two binary files with the same record structure; None if the structure differs."""
+    try:
+        pa, pb = scan_records(a), scan_records(b)
+    except ScanError:
+        return None
+    if pa != pb:
+        return None
+    out, pos = [], 0
+    for i, n in enumerate(pa):
+        if a[pos:pos + 8 + n] != b[pos:pos + 8 + n]:
+            out.append(i)
+        pos += 8 + n
+    return out
+
+
 def _rd(path, mode="rb"):
     with open(path, mode, **({"newline": ""} if mode == "r" else {})) as f:
         return f.read()
@@ -1521,14 +1722,19 @@ def roundtrips(fmt, c, rec, w, sized=None):
 
     name = fmt.name
     read = (lambda p, e: fmt.read_sized(p, e, sized)) if sized is not None else fmt.read
-    nref = norm(c)
+    lim = getattr(rec, "diff_limit", 4)
+    gen = bool(w.get("generated"))
+    nref = norm(c)  # taken BEFORE writing: a writer that alters the container it is given is judged against what it was given
     try:
         with env.quiet():
             fmt.write(c, "o.bin", "b")
     except Exception as e:
         rec.crash("%s/writeBinary" % name, e, w)
         return 0
-    nref = norm(c)  # writers may normalise lazily (file names, derived tables); compare against the state that was written
+    dw = diff(nref, norm(c), limit=lim)
+    if dw:
+        rec.add("containers_altered_by_writeBinary", 1)
+        rec.note("altered-by-writer:%s" % name, dw[:3])
     bB = _rd("o.bin")
     rec.hit("gen.bin.roundtrip" if w.get("generated") else "fixture.bin.roundtrip")
     try:
@@ -1552,13 +1758,14 @@ def roundtrips(fmt, c, rec, w, sized=None):
     except Exception as e:
         rec.crash("%s/readBinary-of-own-output" % name, e, w)
         return len(payloads)
-    d = diff(nref, norm(c2))
+    d = diff(nref, norm(c2), limit=lim)
     if d:
         rec.violation("roundtrip/%s/binary-read-differs" % name, "%s: readBinary(writeBinary(c)) != c: %s" % (name, "; ".join(d)), dict(w, diffs=d))
     b2 = _rd("o2.bin")
     if b2 != bB:
         fd = _first_diff(bB, b2)
-        rec.violation("rewrite/%s/binary-bytes-differ" % name, "%s: writing what was read changes the file at byte %d" % (name, fd["offset"]), dict(w, first_diff=fd, at=_locate(payloads, fd["offset"])))
+        rec.violation("rewrite/%s/binary-bytes-differ" % name, "%s: writing what was read changes the file at byte %d" % (name, fd["offset"]),
+                      dict(w, first_diff=fd, at=_locate(payloads, fd["offset"]), records_differing=records_differing(bB, b2)))
     if not fmt.ascii:
         return len(payloads)
     # ---- ASCII
@@ -1585,7 +1792,7 @@ def roundtrips(fmt, c, rec, w, sized=None):
         if not ascii_failure(fmt, rec, "readAscii", "%s: %s" % (type(e).__name__, str(e).strip().splitlines()[-1][:160] if str(e).strip() else ""), w, nref):
             rec.crash("%s/readAscii-of-own-output" % name, e, w)
         return len(payloads)
-    d = diff(nref, norm(c3))
+    d = diff(nref, norm(c3), limit=lim)
     if d:
         if not ascii_failure(fmt, rec, "readAscii", "; ".join(d), w, nref):
             rec.violation("roundtrip/%s/ascii-read-differs" % name, "%s: readAscii(writeAscii(c)) != c: %s" % (name, "; ".join(d)), dict(w, diffs=d))
@@ -1603,7 +1810,9 @@ def roundtrips(fmt, c, rec, w, sized=None):
     if b3 != bB:
         fd = _first_diff(bB, b3)
         rec.violation("cross/%s/ascii-to-binary-differs" % name, "%s: binary written from the ASCII-read container differs from the original binary at byte %d" % (name, fd["offset"]),
-                      dict(w, first_diff=fd, at=_locate(payloads, fd["offset"])))
+                      dict(w, first_diff=fd, at=_locate(payloads, fd["offset"]), records_differing=records_differing(bB, b3)))
+    if gen:
+        rec.hit("gen.roundtrips-complete/" + name)  # every oracle above was reached for this container
     return len(payloads)
 
 
@@ -1695,32 +1904,39 @@ def do_generated(spec, rec, rng):
         if fmt.name == "fixsrc":
             gen_fixsrc(fmt, crng, rec, w, ci)
             continue
+        fmt.last_g = None
         try:
             with env.quiet():
                 c0, g = fmt.generate(crng, hostile)
         except Exception as e:
-            inner = str(e)
-            kind = type(e).__name__
-            for t in ("NotImplementedError", "ValueError", "KeyError", "IndexError", "TypeError", "Exception: Cannot pack"):
-                if t in inner:
-                    kind = t.split(":")[0]
-                    break
-            rec.reject("%s: reader refused the %s header (%s)" % (fmt.name, "hostile" if hostile else "regular", kind))
-            if not hostile:
+            # armi raised while its own readWrite() walked the synthetic file.  Allowed only where the format module refuses the header on
+            # purpose or the header is ill-formed (Fmt.refusal names the reason from the values drawn); a regular header must be read.
+            g = fmt.last_g
+            root, func, tb = root_cause(e)
+            kind = type(root).__name__
+            reason = fmt.refusal(g) if g is not None else None
+            if reason:
+                rec.reject("%s: reader refused the header (%s) - %s" % (fmt.name, kind, reason))
+            else:
+                w["header"] = dict(g.header) if g is not None else None
                 rec.add("regular_header_refusals", 1)
-                rec.note("refusal:%s:%s" % (fmt.name, kind), {"case": w["case"], "error": inner[-300:]})
+                rec.violation("read/%s/regular-header-refused/%s@%s" % (fmt.name, kind, func),
+                              "%s: a file with a regular, well-formed header (%s) cannot be read: %s in %s: %s"
+                              % (fmt.name, ", ".join("%s=%s" % kv for kv in sorted((w["header"] or {}).items())[:14]), kind, func, str(root)[:200]),
+                              dict(w, error="%s: %s" % (kind, str(root)[:300]), traceback=tb[-1500:]))
+                rec.case(["gen-refused", fmt.name, kind, func], nontrivial=False)
             continue
         rec.hit("gen.container")
         w["header"] = fmt.header(c0, g)
-        rec0 = rec
+        r = rec  # recorder of this case; never carried over to the next case
         if fmt.name in ("isotxs", "gamiso"):
             md = getattr(c0, fmt.name + "Metadata")
             lords = [int(o) for n in c0.nuclides for o in getattr(n, fmt.name + "Metadata")["ords"]]
             if md["subblockingControl"] > 1 or any(o > 1 for o in lords):
-                rec = Reroute(rec0, "isotxs/scatter-subblocks-or-orders-accepted-but-garbled",
-                              "%s with NSBLOK=%d, max LORD=%d was accepted by the reader (most such headers are refused) but is not read faithfully: "
-                              "_rw7DRecord builds a new matrix per sub-block (the last one wins) and stacks the rows of all Legendre orders"
-                              % (fmt.name.upper(), md["subblockingControl"], max(lords or [0])))
+                r = Reroute(rec, "isotxs/scatter-subblocks-or-orders-accepted-but-garbled",
+                            "%s with NSBLOK=%d, max LORD=%d was accepted by the reader (most such headers are refused) but is not read faithfully: "
+                            "_rw7DRecord builds a new matrix per sub-block (the last one wins) and stacks the rows of all Legendre orders"
+                            % (fmt.name.upper(), md["subblockingControl"], max(lords or [0])), isotxs_scatter_records(c0, fmt.name))
         image = g.bytes()
         n0 = norm(c0)
         # (1) the real reader on the synthetic file returns what the generative reader handed out
@@ -1730,29 +1946,62 @@ def do_generated(spec, rec, rng):
                 c1 = fmt.read("img.bin", "b")
                 fmt.write(c1, "img.out", "b")
         except Exception as e:
-            rec.crash("%s/read-write-synthetic-file" % fmt.name, e, w)
+            r.crash("%s/read-write-synthetic-file" % fmt.name, e, w)
+            rec.case(["gen-crashed", fmt.name, sorted(w["header"].items())], nontrivial=False)
             continue
-        d = diff(n0, norm(c1))
+        d = diff(n0, norm(c1), limit=getattr(r, "diff_limit", 4))
         if d:
-            rec.violation("read/%s/synthetic-file-misread" % fmt.name, "%s: readBinary of a file holding known values returns other values: %s" % (fmt.name, "; ".join(d)), dict(w, diffs=d))
+            r.violation("read/%s/synthetic-file-misread" % fmt.name, "%s: readBinary of a file holding known values returns other values: %s" % (fmt.name, "; ".join(d[:4])), dict(w, diffs=d))
         # (2) write(read(file)) == file
         rec.hit("gen.image-reproduced")
+        rec.hit("gen.image-reproduced/" + fmt.name)
         out = _rd("img.out")
         if out != image and fmt.name == "compxs" and out == compxs_d2_over_d1(image, c1):
-            rec.violation("compxs/d1-multiplier-overwritten-by-d2", "COMPXS: the first-dimension diffusion-coefficient multiplier of every group record is lost on read "
-                          "(REGIONXS_POWER_CONVERT_DIRECTIONAL_DIFF lists 'd1Multiplier' twice and never 'd2Multiplier'), so write(read(file)) puts the D2 multiplier "
-                          "in both places", dict(w, first_diff=_first_diff(image, out)))
+            r.violation("compxs/d1-multiplier-overwritten-by-d2", "COMPXS: the first-dimension diffusion-coefficient multiplier of every group record is lost on read "
+                        "(REGIONXS_POWER_CONVERT_DIRECTIONAL_DIFF lists 'd1Multiplier' twice and never 'd2Multiplier'), so write(read(file)) puts the D2 multiplier "
+                        "in both places", dict(w, first_diff=_first_diff(image, out)))
         elif out != image:
             fd = _first_diff(image, out)
             at = _locate(scan_records(image), fd["offset"])
-            rec.violation("rewrite/%s/synthetic-file-not-reproduced" % fmt.name, "%s: write(read(file)) differs from the file at byte %d (record %s, payload byte %s)"
-                          % (fmt.name, fd["offset"], at.get("record"), at.get("byte_in_payload")), dict(w, first_diff=fd, at=at))
+            r.violation("rewrite/%s/synthetic-file-not-reproduced" % fmt.name, "%s: write(read(file)) differs from the file at byte %d (record %s, payload byte %s)"
+                        % (fmt.name, fd["offset"], at.get("record"), at.get("byte_in_payload")), dict(w, first_diff=fd, at=at, records_differing=records_differing(image, out)))
         # (3) fill every data cell, then the round trips
         refilled = fmt.refill(c1, crng)
-        nrec = roundtrips(fmt, c1, rec, dict(w, refilled=refilled))
-        rec = rec0
+        nrec = roundtrips(fmt, c1, r, dict(w, refilled=refilled))
         rec.case(["gen", fmt.name, sorted(w["header"].items())], nontrivial=fmt.nontrivial(nrec),
                  sample=dict(w, records=nrec, bytes=len(image)) if ci < len(names) * 1 and ci % len(names) == 0 and not hostile else None)
+
+
+def isotxs_scatter_records(lib, which):
+    """Indices of the scatter (7D) records of an ISOTXS/GAMISO file by the CCCC layout: file id, 1D, 2D, then per nuclide 4D, 5D and one 7D record
+    per sub-block of every scattering block with LORD>0 (no 3D/6D records: fission-spectrum matrices are refused)."""
+    fm = getattr(lib, which + "Metadata")
+    nsb, nb = fm["subblockingControl"], fm["maxScatteringBlocks"]
+    idx, out = 3, set()
+    for nuc in lib.nuclides:
+        md = getattr(nuc, which + "Metadata")
+        idx += 2
+        for n in range(nb):
+            if int(md["ords"][n]) > 0:
+                out.update(range(idx, idx + nsb))
+                idx += nsb
+    return out
+
+
+def root_cause(e):
+    """(innermost exception of the __cause__/__context__ chain, name of the innermost format-module function on its traceback, traceback text).
+    armi wraps every failure of ISOTXS/PMATRX/COMPXS/DLAYXS into OSError; the mechanism is the exception underneath."""
+    import traceback
+
+    seen = set()
+    while (e.__cause__ or e.__context__) is not None and id(e) not in seen:
+        seen.add(id(e))
+        e = e.__cause__ or e.__context__
+    frames = traceback.extract_tb(e.__traceback__)
+    fm = [f for f in frames if "/nuclearDataIO/" in f.filename.replace(os.sep, "/")]
+    pick = [f for f in fm if os.path.basename(f.filename) != "cccc.py"] or fm
+    func = pick[-1].name if pick else "harness"
+    return e, func, "".join(traceback.format_exception(type(e), e, e.__traceback__))
 
 
 def compxs_d2_over_d1(image, lib):
@@ -1801,19 +2050,48 @@ def gen_fixsrc(fmt, rng, rec, w, ci):
 
 
 class Reroute:
-    """Recorder proxy: every verdict of one case is filed under one mechanism key (used when the header itself names the mechanism)."""
+    """Recorder proxy for ISOTXS/GAMISO cases with NSBLOK>1 or LORD>1 (recorded finding: such scatter blocks are not read faithfully).
+    Only what that mechanism explains is filed under its key: differences confined to the scatter (7D) records of a file, to the scatter matrices of the
+    container, or failures inside the scatter-record code.  Anything else seen on such a case keeps its own key, so a different defect is not masked."""
+    diff_limit = 200  # the attribution needs every difference, not the first four
 
-    def __init__(self, rec, key, what):
-        self._rec, self._key, self._what = rec, key, what
+    def __init__(self, rec, key, what, scatter_records):
+        self._rec, self._key, self._what, self._scatter = rec, key, what, set(scatter_records)
 
     def __getattr__(self, name):
         return getattr(self._rec, name)
 
+    def _explained(self, key, witness):
+        witness = witness or {}
+        head = key.split("/")[0]
+        if head in ("rewrite", "cross"):
+            rd = witness.get("records_differing")
+            return bool(rd) and set(rd) <= self._scatter
+        if head in ("read", "roundtrip"):
+            d = witness.get("diffs")
+            return bool(d) and all("Scatter" in x.split(":")[0] for x in d)
+        return False
+
     def violation(self, key, what, witness=None):
-        self._rec.violation(self._key, "%s [%s: %s]" % (self._what, key, str(what)[:300]), witness)
+        if self._explained(key, witness):
+            self._rec.add("explained-by-known-mechanism:" + "/".join(key.split("/")[::2]), 1)
+            if witness and "diffs" in witness:
+                witness = dict(witness, diffs=witness["diffs"][:6])
+            self._rec.violation(self._key, "%s [%s: %s]" % (self._what, key, str(what)[:300]), witness)
+        else:
+            self._rec.add("not-explained-by-known-mechanism:" + key, 1)
+            self._rec.violation(key, what, witness)
 
     def crash(self, where, exc, witness=None):
-        self._rec.violation(self._key, "%s [crash at %s: %s %s]" % (self._what, where, type(exc).__name__, str(exc)[-200:]), witness)
+        import traceback
+
+        tb = "".join(traceback.format_exception(type(exc), exc, exc.__traceback__)) + str(exc)
+        if "_rw7DRecord" in tb or "ScatterMatrix" in tb:
+            self._rec.add("explained-by-known-mechanism:crash/" + where, 1)
+            self._rec.violation(self._key, "%s [crash at %s: %s %s]" % (self._what, where, type(exc).__name__, str(exc)[-200:]), witness)
+        else:
+            self._rec.add("not-explained-by-known-mechanism:crash/" + where, 1)
+            self._rec.crash(where, exc, witness)
 
 
 # ============================================================================ environment, plan, dispatch
@@ -1850,14 +2128,17 @@ GEN_SHARDS = [("rtflux", ["rtflux", "atflux"]), ("pwdint", ["pwdint"]), ("rzflux
 def plan(tier, seed):
     q = tier == "quick"
     shards = [{"name": "records-%d" % i, "kind": "records", "n": 2000 if q else 17000} for i in range(1 if q else 3)]
+    shards.append({"name": "records-big", "kind": "bigrecords", "repeat": 1 if q else 3})
     shards.append({"name": "fixtures-isotxs", "kind": "fixtures", "formats": ["isotxs"]})
     shards.append({"name": "fixtures-xs", "kind": "fixtures", "formats": ["gamiso", "pmatrx", "compxs", "dlayxs"]})
     shards.append({"name": "fixtures-flux", "kind": "fixtures", "formats": ["rtflux", "pwdint", "rzflux", "nhflux", "nhflux-variant", "geodst", "dif3d", "labels"]})
     for name, fl in GEN_SHARDS:
-        shards.append({"name": "gen-" + name, "kind": "generated", "formats": fl, "n": (40 if q else 1500) * (2 if len(fl) > 1 else 1)})
+        # compxs/pmatrx draw (at a low rate) regular headers armi cannot read today; a few more cases keep their round-trip coverage level
+        per = (56 if name in ("compxs", "pmatrx") else 40) if q else 1500
+        shards.append({"name": "gen-" + name, "kind": "generated", "formats": fl, "n": per * len(fl) if q else per * (2 if len(fl) > 1 else 1)})
     return shards
 
 
 def run_shard(spec, rec):
     rng = random.Random(spec["rng"])
-    {"records": do_records, "fixtures": do_fixtures, "generated": do_generated}[spec["kind"]](spec, rec, rng)
+    {"records": do_records, "bigrecords": do_big_records, "fixtures": do_fixtures, "generated": do_generated}[spec["kind"]](spec, rec, rng)
